@@ -191,15 +191,22 @@ func (h264dp *h264Depacketizer) depacketizeFuA(packet *Packet) (err error) {
 	return
 }
 
+// metaStuck reports that the parameter sets stored so far have not made the
+// metadata ready (e.g. a damaged in-band SPS that does not parse); a newer
+// parameter set then replaces the stored one instead of being ignored.
+func (h264dp *h264Depacketizer) metaStuck() bool {
+	return !h264dp.metaReady && !h264.MetadataIsReady(h264dp.meta)
+}
+
 func (h264dp *h264Depacketizer) writeFrame(rtpTimestamp uint32, frame *codec.Frame) error {
 	nalType := frame.Payload[0] & 0x1f
 	switch nalType {
 	case h264.NalSps:
-		if len(h264dp.meta.Sps) == 0 {
+		if len(h264dp.meta.Sps) == 0 || h264dp.metaStuck() {
 			h264dp.meta.Sps = frame.Payload
 		}
 	case h264.NalPps:
-		if len(h264dp.meta.Pps) == 0 {
+		if len(h264dp.meta.Pps) == 0 || h264dp.metaStuck() {
 			h264dp.meta.Pps = frame.Payload
 		}
 	case h264.NalFillerData: // ?ignore...
